@@ -472,7 +472,9 @@ fn show_frame(m: &proto::NetworkMessage, this_conn: &mut Option<String>) -> Stri
             Some(C::PgLeave(j)) => format!("pgleave:{}:{}:{}", word(&j.scope), word(&j.group), pids(&j.actors)),
             Some(C::EnumerateNodeSessions(n)) => format!("enum:{}", word(&n.name)),
             Some(C::NodeSessions(s)) => {
-                let l: Vec<String> = s.sessions.iter().map(|n| format!("{}^{}", word(&n.name), word(&n.connection_string))).collect();
+                let mut l: Vec<(String, String)> = s.sessions.iter().map(|n| (n.name.clone(), n.connection_string.clone())).collect();
+                l.sort();
+                let l: Vec<String> = l.iter().map(|(n, c)| format!("{}^{}", word(n), word(c))).collect();
                 format!("nodesessions:{}", if l.is_empty() { "-".into() } else { l.join(";") })
             }
         },
@@ -558,16 +560,22 @@ struct World {
     /// connections whose session has been seen dead
     dead: Vec<u64>,
     transitive: bool,
+    /// the configured `max_inbound_frame_size` (None = the 16 MiB default)
+    #[allow(dead_code)]
+    limit: Option<u64>,
     /// a real TCP listener the adversary advertises in `NodeSessions` frames (transitive mode)
     bait: Option<std::net::TcpListener>,
 }
 
 impl World {
-    async fn new(name: &str, case_no: u64, transitive: bool) -> World {
+    async fn new(name: &str, case_no: u64, transitive: bool, limit: Option<u64>) -> World {
         let mode = if transitive { ractor_cluster::node::NodeConnectionMode::Transitive } else { ractor_cluster::node::NodeConnectionMode::Isolated };
-        let (node, h) = Actor::spawn(None, NodeServer::new(0, COOKIE.to_string(), name.to_string(), format!("h{case_no}"), None, Some(mode)), ())
-            .await
-            .expect("node server");
+        let mut server = NodeServer::new(0, COOKIE.to_string(), name.to_string(), format!("h{case_no}"), None, Some(mode));
+        if let Some(l) = limit {
+            // a non-default limit on inbound frames: must hold for every session, however it was opened
+            server = server.with_max_inbound_frame_size(l);
+        }
+        let (node, h) = Actor::spawn(None, server, ()).await.expect("node server");
         quiesce().await;
         let mut w = World {
             node,
@@ -580,6 +588,7 @@ impl World {
             label: 0,
             dead: Vec::new(),
             transitive,
+            limit,
             bait: if transitive {
                 let l = std::net::TcpListener::bind("127.0.0.1:0").expect("bait listener");
                 l.set_nonblocking(true).expect("nonblocking");
@@ -590,7 +599,7 @@ impl World {
         };
         // learn this node's connection string (the listener port is chosen by the OS): a throw-away
         // client-side session announces it in its first frame
-        let mut c = w.connect(false).await;
+        let mut c = w.connect(false, true).await;
         let _ = c.drain(&mut w.this_conn).await;
         drop(c);
         quiesce().await;
@@ -598,15 +607,30 @@ impl World {
         w
     }
 
-    async fn connect(&mut self, is_server: bool) -> Conn {
+    /// `ext`: through `ConnectionOpenedExternal` / `client_connect_external` (external-transport
+    /// creation site); otherwise through `ConnectionOpened` (the creation site the TCP listener and
+    /// `client::connect` use) with an in-memory `NetworkStream`.
+    async fn connect(&mut self, is_server: bool, ext: bool) -> Conn {
         let before: Vec<_> = self.node.get_children().iter().map(|c| c.get_id()).collect();
         let (ours, theirs) = tokio::io::duplex(1 << 20);
         self.label += 1;
-        let stream = Box::new(Duplex { stream: theirs, label: format!("c{}", self.label) });
-        if is_server {
-            let _ = self.node.cast(NodeServerMessage::ConnectionOpenedExternal { stream, is_server: true });
+        let label = format!("c{}", self.label);
+        if ext {
+            let stream = Box::new(Duplex { stream: theirs, label });
+            if is_server {
+                let _ = self.node.cast(NodeServerMessage::ConnectionOpenedExternal { stream, is_server: true });
+            } else {
+                let _ = ractor_cluster::client_connect_external(&self.node, stream).await;
+            }
         } else {
-            let _ = ractor_cluster::client_connect_external(&self.node, stream).await;
+            let (r, w) = tokio::io::split(theirs);
+            let stream = Box::new(ractor_cluster::NetworkStream::External {
+                peer_label: Some(label.clone()),
+                local_label: Some(label),
+                reader: Box::new(r),
+                writer: Box::new(w),
+            });
+            let _ = self.node.cast(NodeServerMessage::ConnectionOpened { stream, is_server });
         }
         quiesce().await;
         let cell = self.node.get_children().into_iter().find(|c| !before.contains(&c.get_id()));
@@ -810,7 +834,7 @@ async fn op_send(w: &mut World, log: &mut Log, st: &mut Stats, k: u64, desc: &st
         st.bump("lts_obs_listed");
     }
     let env = env_fields(w, k, &sent, desc, known);
-    log.rec(format!("send {k} {desc} {env}"), obs);
+    log.rec(format!("send {k} {desc} len={} {env}", bytes.len() - 8), obs);
     note_killed(w, log, st, k).await;
     sent
 }
@@ -818,9 +842,13 @@ async fn op_send(w: &mut World, log: &mut Log, st: &mut Stats, k: u64, desc: &st
 /// Several frames written back-to-back (one write, no waiting for the node in between).
 async fn op_batch(w: &mut World, log: &mut Log, st: &mut Stats, k: u64, descs: &[String]) -> Vec<String> {
     let mut bytes = Vec::new();
+    let mut lens: Vec<String> = Vec::new();
     for d in descs {
         match encode_desc(d) {
-            Some(b) => bytes.extend(b),
+            Some(b) => {
+                lens.push((b.len() - 8).to_string());
+                bytes.extend(b)
+            }
             None => {
                 log.rec(format!("batch {k} {}", descs.join("+")), "unparsable-in-replay");
                 return vec![];
@@ -843,13 +871,14 @@ async fn op_batch(w: &mut World, log: &mut Log, st: &mut Stats, k: u64, descs: &
         }
     }
     let env = env_fields(w, k, &sent, &joined, None);
-    log.rec(format!("batch {k} {joined} {env}"), obs);
+    log.rec(format!("batch {k} {joined} len={} {env}", lens.join("+")), obs);
     note_killed(w, log, st, k).await;
     sent
 }
 
-async fn op_open(w: &mut World, log: &mut Log, st: &mut Stats, k: u64, server: bool, transitive: bool) -> Vec<String> {
-    let conn = w.connect(server).await;
+async fn op_open(w: &mut World, log: &mut Log, st: &mut Stats, k: u64, server: bool, ext: bool) -> Vec<String> {
+    let conn = w.connect(server, ext).await;
+    st.bump(if ext { "lts_open_path_external" } else { "lts_open_path_tcp_site" });
     w.conns.insert(k, conn);
     let mut tc = w.this_conn.clone();
     let sent = w.conns.get_mut(&k).unwrap().drain(&mut tc).await;
@@ -866,11 +895,12 @@ async fn op_open(w: &mut World, log: &mut Log, st: &mut Stats, k: u64, server: b
     st.bump(if server { "lts_open_server" } else { "lts_open_client" });
     log.rec(
         format!(
-            "open {k} {} thisname={} thisconn={} connid={connid} transitive={}",
+            "open {k} {} thisname={} thisconn={} connid={connid} transitive={} path={}",
             if server { "server" } else { "client" },
             word(&w.name),
             word(w.this_conn.as_deref().unwrap_or("?")),
-            (transitive || w.transitive) as u8
+            w.transitive as u8,
+            if ext { "ext" } else { "tcp" }
         ),
         format!("sent=[{}]", sent.join("|")),
     );
@@ -915,6 +945,40 @@ async fn op_garbage(w: &mut World, log: &mut Log, st: &mut Stats, k: u64, bytes:
     let (obs, _) = w.observe(k).await;
     st.bump("lts_garbage");
     log.rec(format!("garbage {k} {}", hex(bytes)), obs);
+}
+
+/// A frame header declaring `declared` payload bytes, followed by only `n` payload bytes.
+async fn op_declare(w: &mut World, log: &mut Log, st: &mut Stats, k: u64, declared: u64, n: usize) {
+    if !w.conns.contains_key(&k) {
+        return;
+    }
+    let mut v = declared.to_be_bytes().to_vec();
+    v.extend(std::iter::repeat(0x0a).take(n));
+    w.conns.get_mut(&k).unwrap().write(&v).await;
+    let (obs, _) = w.observe(k).await;
+    st.bump("lts_declare");
+    log.rec(format!("declare {k} {declared} {n}"), obs);
+}
+
+/// An authentication frame of this session's next expected kind whose payload is exactly `len`
+/// bytes (the peer name is padded): `name:…` on a server-side session, `schal:…` on a client-side one.
+fn padded_frame(server_side: bool, len: usize, id: u64) -> Option<String> {
+    for conn in ["pc", "pcc", "pccc", "pcccc"] {
+        let lo = len.saturating_sub(40);
+        for n in lo..=len {
+            let name = format!("{}@p", "q".repeat(n));
+            let d = if server_side { format!("name:{name}:{conn}:{id}") } else { format!("schal:{name}:{conn}:{id}") };
+            if let Some(b) = encode_desc(&d) {
+                if b.len() - 8 == len {
+                    return Some(d);
+                }
+                if b.len() - 8 > len {
+                    break;
+                }
+            }
+        }
+    }
+    None
 }
 
 async fn op_drop(w: &mut World, log: &mut Log, st: &mut Stats, k: u64) {
@@ -1028,9 +1092,10 @@ fn random_frame(w: &World, rng: &mut Rng, k: u64, chal: Option<u32>) -> String {
 async fn lts_case(log: &mut Log, st: &mut Stats, rng: &mut Rng, case_no: u64) {
     let short = format!("node{}", case_no % 3);
     let transitive = case_no % 8 == 5;
-    let mut w = World::new(&short, case_no, transitive).await;
+    let limit = if case_no % 6 == 1 { Some(4096) } else { None };
+    let mut w = World::new(&short, case_no, transitive, limit).await;
     let name = w.name.clone();
-    log.rec(format!("node {short} transitive={}", transitive as u8), "ok");
+    log.rec(format!("node {short} transitive={} limit={}", transitive as u8, limit.unwrap_or(ractor_cluster::DEFAULT_MAX_INBOUND_FRAME_SIZE)), "ok");
     // local actors: a remotable probe in a group, a non-remotable one in a group, a remotable loner
     w.spawn_probe(true, Some(("sc", "g1"))).await;
     w.spawn_probe(false, Some(("sc", "g1"))).await;
@@ -1041,7 +1106,7 @@ async fn lts_case(log: &mut Log, st: &mut Stats, rng: &mut Rng, case_no: u64) {
     st.bump(&format!("lts_mode_{mode}"));
     let server_side = rng.chance(2, 3);
     let k = 0u64;
-    let mut sent = op_open(&mut w, log, st, k, server_side, false).await;
+    let mut sent = op_open(&mut w, log, st, k, server_side, rng.chance(1, 2)).await;
     let knows_cookie = mode < 5;
     let mut chal: Option<u32> = last_challenge(&sent, server_side);
     let peer = if mode == 9 { name.clone() } else { rng.pick(&["evil@h", "zed@h"]).to_string() };
@@ -1146,7 +1211,7 @@ async fn lts_case(log: &mut Log, st: &mut Stats, rng: &mut Rng, case_no: u64) {
     if rng.chance(1, 3) || (knows_cookie && rng.chance(1, 2)) {
         let k2 = 1u64;
         let srv2 = rng.chance(2, 3);
-        let s2 = op_open(&mut w, log, st, k2, srv2, false).await;
+        let s2 = op_open(&mut w, log, st, k2, srv2, rng.chance(1, 2)).await;
         let peer2 = if rng.chance(2, 3) { peer.clone() } else { "other@h".to_string() };
         if srv2 {
             let s = op_send(&mut w, log, st, k2, &format!("name:{peer2}:pc2:{}", rng.below(3))).await;
@@ -1163,10 +1228,31 @@ async fn lts_case(log: &mut Log, st: &mut Stats, rng: &mut Rng, case_no: u64) {
                 op_send(&mut w, log, st, k2, &format!("sack:{dg}")).await;
             }
         }
+        // who is listed to whom: both sessions ask (under a name of their own and under the other's)
+        for kk in [k, k2] {
+            let asking = rng.pick(&["q@h", peer.as_str(), peer2.as_str()]).to_string();
+            op_send(&mut w, log, st, kk, &format!("enum:{asking}:{}", rng.pick(&["zz", "pc", "pc2"]))).await;
+        }
         for _ in 0..rng.below(5) {
             let kk = *rng.pick(&[k, k2]);
             let f = random_frame(&w, rng, kk, None);
             op_send(&mut w, log, st, kk, &f).await;
+        }
+    }
+    // a peer that has only ANNOUNCED a name (no cookie proof) must not be listed to anybody
+    if rng.chance(1, 3) {
+        let k3 = 2u64;
+        let srv3 = rng.chance(1, 2);
+        op_open(&mut w, log, st, k3, srv3, rng.chance(1, 2)).await;
+        if srv3 {
+            op_send(&mut w, log, st, k3, "name:ghost@h:gc:1").await;
+        } else {
+            op_send(&mut w, log, st, k3, "sstatus:0").await;
+            op_send(&mut w, log, st, k3, "schal:ghost@h:gc:5").await;
+        }
+        let ks: Vec<u64> = w.conns.keys().copied().collect();
+        for kk in ks {
+            op_send(&mut w, log, st, kk, "enum:q@h:zz").await;
         }
     }
     op_connects(&mut w, log, st).await;
@@ -1202,26 +1288,44 @@ async fn good_handshake(w: &mut World, log: &mut Log, st: &mut Stats, rng: &mut 
 /// close, and the node must go on serving: a fresh session authenticates and reaches the probe.
 async fn wire_case(log: &mut Log, st: &mut Stats, rng: &mut Rng, case_no: u64) {
     let short = format!("node{}", case_no % 3);
-    let mut w = World::new(&short, 500_000 + case_no, false).await;
-    log.rec(format!("node {short} transitive=0"), "ok");
+    let default = ractor_cluster::DEFAULT_MAX_INBOUND_FRAME_SIZE;
+    // a configured (non-default) limit in three cases out of four
+    let limit: Option<u64> = match rng.below(4) {
+        0 => None,
+        1 => Some(64),
+        2 => Some(256),
+        _ => Some(4096),
+    };
+    let max = limit.unwrap_or(default);
+    let mut w = World::new(&short, 500_000 + case_no, false, limit).await;
+    log.rec(format!("node {short} transitive=0 limit={max}"), "ok");
+    st.bump(&format!("wire_limit_{max}"));
     let probe = w.spawn_probe(true, Some(("sc", "g1"))).await;
     w.spawn_probe(false, None).await;
+    let mut next_k = 0u64;
+    let fresh = |n: &mut u64| {
+        let k = *n;
+        *n += 1;
+        k
+    };
+
+    // (a) a framing fault before / in the middle of / after the handshake
     let server_side = rng.chance(1, 2);
-    op_open(&mut w, log, st, 0, server_side, false).await;
-    let stage = rng.below(3); // fault before / in the middle of / after the handshake
+    let k0 = fresh(&mut next_k);
+    op_open(&mut w, log, st, k0, server_side, rng.chance(1, 2)).await;
+    let stage = rng.below(3);
     if stage == 2 {
-        good_handshake(&mut w, log, st, rng, 0, server_side, "evil@h").await;
+        good_handshake(&mut w, log, st, rng, k0, server_side, "evil@h").await;
     } else if stage == 1 {
         if server_side {
-            op_send(&mut w, log, st, 0, "name:evil@h:pc:1").await;
+            op_send(&mut w, log, st, k0, "name:evil@h:pc:1").await;
         } else {
-            op_send(&mut w, log, st, 0, "sstatus:0").await;
+            op_send(&mut w, log, st, k0, "sstatus:0").await;
         }
     }
-    let max = ractor_cluster::DEFAULT_MAX_INBOUND_FRAME_SIZE;
     let fault: Vec<u8> = match rng.below(6) {
         0 => vec![0, 0, 0, 0, 0, 0, 0, 1, 0xff],
-        1 => (max + 1).to_be_bytes().to_vec(),
+        1 => (default + 1).to_be_bytes().to_vec(),
         2 => u64::MAX.to_be_bytes().to_vec(),
         3 => ((isize::MAX as u64) + 1).to_be_bytes().to_vec(),
         4 => {
@@ -1230,32 +1334,62 @@ async fn wire_case(log: &mut Log, st: &mut Stats, rng: &mut Rng, case_no: u64) {
             v
         }
         _ => {
-            let mut v = (max + 1).to_be_bytes().to_vec();
+            let mut v = (default + 1).to_be_bytes().to_vec();
             v.extend_from_slice(&[1, 2, 3, 4, 5, 6, 7, 8, 9]);
             v
         }
     };
     st.bump("wire_fault");
-    op_garbage(&mut w, log, st, 0, &fault).await;
+    op_garbage(&mut w, log, st, k0, &fault).await;
+
+    // (b) complete, well-formed frames whose length is just below / at / just above / twice the
+    // CONFIGURED limit, on sessions opened through either creation site, server- and client-side
+    if limit.is_some() {
+        let mut lens = vec![max - 1, max, max + 1, 2 * max];
+        rng.shuffle(&mut lens);
+        for l in lens.into_iter().take(rng.range(2, 4) as usize) {
+            let srv = rng.chance(1, 2);
+            let k = fresh(&mut next_k);
+            op_open(&mut w, log, st, k, srv, rng.chance(1, 2)).await;
+            if !srv {
+                op_send(&mut w, log, st, k, "sstatus:0").await;
+            }
+            if let Some(d) = padded_frame(srv, l as usize, rng.below(3)) {
+                st.bump(if l > max { "wire_over_limit_frame" } else { "wire_within_limit_frame" });
+                op_send(&mut w, log, st, k, &d).await;
+            }
+        }
+    }
+    // (c) headers that only DECLARE a length (no or little payload behind them): over the
+    // configured limit the session must close at once, otherwise it waits for the payload
+    for _ in 0..rng.range(1, 3) {
+        let srv = rng.chance(1, 2);
+        let k = fresh(&mut next_k);
+        op_open(&mut w, log, st, k, srv, rng.chance(1, 2)).await;
+        let declared = *rng.pick(&[max + 1, max, 2 * max, max + 1, default - 1, default, default + 1, 12]);
+        let n = *rng.pick(&[0usize, 0, 5]);
+        if declared > max {
+            st.bump("wire_over_limit_declared");
+        }
+        op_declare(&mut w, log, st, k, declared, n).await;
+    }
     if rng.chance(1, 3) {
         // a truncated frame on yet another session, then EOF
-        op_open(&mut w, log, st, 2, true, false).await;
-        let mut v = 100u64.to_be_bytes().to_vec();
-        v.extend_from_slice(&[1, 2, 3]);
-        if let Some(c) = w.conns.get_mut(&2) {
-            c.write(&v).await;
-        }
-        op_drop(&mut w, log, st, 2).await;
+        let k = fresh(&mut next_k);
+        op_open(&mut w, log, st, k, true, rng.chance(1, 2)).await;
+        op_declare(&mut w, log, st, k, 40, 3).await;
+        op_drop(&mut w, log, st, k).await;
     }
-    // the node is still in business
+    // (d) the node is still in business
     let srv2 = rng.chance(1, 2);
-    op_open(&mut w, log, st, 1, srv2, false).await;
-    let ok = good_handshake(&mut w, log, st, rng, 1, srv2, "friend@h").await;
+    let k = fresh(&mut next_k);
+    op_open(&mut w, log, st, k, srv2, rng.chance(1, 2)).await;
+    let ok = good_handshake(&mut w, log, st, rng, k, srv2, "friend@h").await;
     log.rec("survived", (ok as u8).to_string());
     if ok {
         st.bump("wire_node_survived");
-        op_send(&mut w, log, st, 1, &format!("cast:{probe}")).await;
-        op_send(&mut w, log, st, 1, &format!("call:{probe}:1")).await;
+        op_send(&mut w, log, st, k, &format!("cast:{probe}")).await;
+        op_send(&mut w, log, st, k, &format!("call:{probe}:1")).await;
     }
     w.shutdown().await;
 }
@@ -1337,7 +1471,8 @@ async fn replay_ops(log: &mut Log, st: &mut Stats, path: &str) {
                 }
                 case_no += 1;
                 let transitive = rest.iter().any(|x| *x == "transitive=1");
-                let mut nw = World::new(name, case_no, transitive).await;
+                let limit = rest.iter().find_map(|x| x.strip_prefix("limit=")).and_then(|x| x.parse::<u64>().ok()).filter(|l| *l != ractor_cluster::DEFAULT_MAX_INBOUND_FRAME_SIZE);
+                let mut nw = World::new(name, case_no, transitive, limit).await;
                 nw.spawn_probe(true, Some(("sc", "g1"))).await;
                 nw.spawn_probe(false, Some(("sc", "g1"))).await;
                 world = Some(nw);
@@ -1345,7 +1480,8 @@ async fn replay_ops(log: &mut Log, st: &mut Stats, path: &str) {
             }
             ["open", k, side, ..] if world.is_some() => {
                 let k: u64 = k.parse().unwrap_or(0);
-                op_open(world.as_mut().unwrap(), log, st, k, *side == "server", false).await;
+                let ext = !w.iter().any(|x| *x == "path=tcp");
+                op_open(world.as_mut().unwrap(), log, st, k, *side == "server", ext).await;
             }
             ["send", k, desc, rest @ ..] if world.is_some() => {
                 let k: u64 = k.parse().unwrap_or(0);
@@ -1400,6 +1536,10 @@ async fn replay_ops(log: &mut Log, st: &mut Stats, path: &str) {
             }
             ["drop", k] if world.is_some() => op_drop(world.as_mut().unwrap(), log, st, k.parse().unwrap_or(0)).await,
             ["connects"] if world.is_some() => op_connects(world.as_mut().unwrap(), log, st).await,
+            ["declare", k, d, n] if world.is_some() => {
+                op_declare(world.as_mut().unwrap(), log, st, k.parse().unwrap_or(0), d.parse().unwrap_or(0), n.parse().unwrap_or(0)).await
+            }
+            ["survived"] => {} // re-derived
             ["killed", ..] => {} // re-derived from what happens in this run
             ["authz", ..] => log.rec(line, "unsupported-in-replay: pids are not stable across runs"),
             _ => log.rec(line, "unsupported-in-replay"),
